@@ -278,7 +278,7 @@ pub fn decode(u: &Unifiable) -> T {
     decode_d(u, 0)
 }
 fn decode_d(u: &Unifiable, depth: usize) -> T {
-    if depth > 200 {
+    if depth > 5000 {
         return atom("<<too deep>>");
     }
     match u {
